@@ -515,6 +515,52 @@ def check_evalpaths(res, facts):
         (rule.bad if problems else rule.ok)(key, "; ".join(problems) if problems else "returns: %s" % ", ".join(kinds), f.loc)
 
 
+def check_naivemul(res, facts):
+    """schoolbook product: result[i + j] += a_i * b_j over ALL i < len(a), j < len(b), into a zeroed table of
+    deg(a) + deg(b) + 1 entries, handed to the canonicalising constructor (compared as index polynomials)"""
+    from rules.c07 import E, show, A, C, qeq
+    from rules.c17 import to_q, NotPoly
+    from arklib.poly import Q
+    rule = res.rule("R-NAIVEMUL", "DensePolynomial::naive_mul: result[i+j] += a_i * b_j over the full index ranges, deg(a)+deg(b)+1 entries", 1)
+    fs = [f for f in facts.fns(unit="ws", crate="ark_poly") if f.kind != "Closure" and f.name == "naive_mul" and "univariate::dense" in f.id]
+    key = "ark_poly|DensePolynomial::naive_mul"
+    if not fs:
+        rule.bad(key, "anchor missing")
+        return
+    f = fs[0]
+    problems = []
+    ia, ib = ("iter", 0, C("len", A(1, "coeffs"))), ("iter", 0, C("len", A(2, "coeffs")))
+    names = {ia: "i", ib: "j"}
+    accs = [t for _, t in f.calls() if t["f"].get("name") == "add_assign"]
+    table = C("from_elem", 0, ("bin", "Add", ("bin", "Add", C("degree", A(1)), C("degree", A(2))), 1))
+    tabs = [E(f, t["args"][1]) for _, t in f.calls() if t["f"].get("name") == "from_elem"]
+    try:
+        want_len = Q.var("da") + Q.var("db") + Q.const(1)
+        lens = [to_q(x, lambda t_: {C("degree", A(1)): "da", C("degree", A(2)): "db"}.get(t_)) for x in tabs]
+        if len(lens) != 1 or not qeq(lens[0], want_len):
+            problems.append("the result table has %s entries, expected deg(a) + deg(b) + 1" % [str(x) for x in lens])
+    except NotPoly as e:
+        problems.append("table length is not an expression of the degrees: %s" % e)
+    if len(accs) != 1:
+        problems.append("expected one accumulation site, found %d" % len(accs))
+    else:
+        dst, val = E(f, accs[0]["args"][0]), E(f, accs[0]["args"][1])
+        if not (isinstance(dst, tuple) and dst[:2] == ("call", "index_mut") and len(dst[2]) == 2):
+            problems.append("accumulates into %s" % show(dst)[:80])
+        else:
+            try:
+                if not qeq(to_q(dst[2][1], lambda t_: names.get(t_)), Q.var("i") + Q.var("j")):
+                    problems.append("a_i * b_j is accumulated at index %s instead of i + j (i, j over all coefficients of a, b)" % show(dst[2][1])[:80])
+            except NotPoly as e:
+                problems.append("accumulation index is not an index polynomial of the two loop variables over the full coefficient ranges: %s" % e)
+        wantv = (C("mul", C("index", A(1, "coeffs"), ia), C("index", A(2, "coeffs"), ib)), C("mul", C("index", A(2, "coeffs"), ib), C("index", A(1, "coeffs"), ia)))
+        if val not in wantv:
+            problems.append("the accumulated value is %s, expected a_i * b_j with i, j the loop variables" % show(val)[:100])
+    if not any(t["f"].get("name") == "from_coefficients_vec" for _, t in f.calls()):
+        problems.append("the result is not built by the canonicalising constructor")
+    (rule.bad if problems else rule.ok)(key, "; ".join(problems) if problems else "result[i+j] += a_i*b_j, i < len(a), j < len(b); deg(a)+deg(b)+1 entries; from_coefficients_vec", f.loc)
+
+
 def run(ctx, res):
     facts = ctx.facts(["ws"])
     res.analysed = facts.stats()
@@ -525,6 +571,7 @@ def run(ctx, res):
     check_cosetfold(res, facts)
     check_vanishdep(res, facts)
     check_evalpaths(res, facts)
+    check_naivemul(res, facts)
     return {
         "level": "other",
         "explanation": "Typestate (must-pass-through) analysis over the MIR of ark-poly: every write access to a dense polynomial's coefficient vector must be followed on all paths by the strip-leading-zeros loop; computed sparse terms must be pushed under a non-zero guard; structure of division; operators defined through other operators evaluated symbolically as linear combinations of their operands. Does NOT decide coefficient-level results (loops over run-time lengths), FFT multiplication or evaluation.",
